@@ -377,6 +377,13 @@ func genC08(t *rapid.T) AxisCase {
 		if rapid.Bool().Draw(t, "ownDZ") {
 			a.Deadzone = floatp(rapid.SampledFrom([]float64{0, 0, 0.1, 0.3}).Draw(t, "dz"))
 		}
+		// the emulated keys of a direction may sound on another channel (channel_offset / channel_offset_negative)
+		if rapid.IntRange(0, 2).Draw(t, "hasOff") == 0 {
+			a.Off = intp(rapid.SampledFrom([]int{1, 2, 9, 15}).Draw(t, "off"))
+		}
+		if rapid.IntRange(0, 2).Draw(t, "hasOffNeg") == 0 {
+			a.OffNeg = intp(rapid.SampledFrom([]int{1, 3, 15}).Draw(t, "offNeg"))
+		}
 		m.Axes = append(m.Axes, a)
 	}
 	if rapid.IntRange(0, 9).Draw(t, "secondSub") < 3 {
